@@ -543,6 +543,12 @@ outerNew:
 				reposition = true
 				continue
 			}
+			if col+vx.advance(next) >= len(vx.screenNext.buf[row]) {
+				// The glyph is wider than the rest of the row. What a
+				// terminal does with it (wrap, clip, scroll) differs
+				// between terminals: show a blank in its style instead
+				next.Character = Character{Grapheme: " ", Width: 1}
+			}
 			if next == vx.screenLast.buf[row][col] && !vx.refresh && col >= dirty {
 				reposition = true
 				// Advance the column by the width of this
